@@ -63,6 +63,13 @@ func c09Program(rng *rand.Rand) string {
 		},
 		func() { w("print (len errmsg) (errmsg == \"\") (errmsg + \"!\") (err == false) (!err)") },
 	}
+	// slices make a fresh OUTER array and share the inner composites - also when the bounds cover the whole array
+	ops = append(ops,
+		func() { k := rng.Intn(1000); w("sv%[1]d := nn[:]\nsv%[1]d[0][0] = %[2]d\nsv%[1]d[0] = [55]\nprint nn sv%[1]d", k, rng.Intn(9)) },
+		func() { k := rng.Intn(1000); w("sw%[1]d := nn[0:]\nnn[0][0] = %[2]d\nprint nn sw%[1]d (nn[:(len nn)])", k, rng.Intn(9)) },
+		func() { k := rng.Intn(1000); w("sx%[1]d := mixa[:]\nsy%[1]d := sx%[1]d[0].([]num)\nsy%[1]d[0] = %[2]d\nprint mixa sx%[1]d", k, rng.Intn(9)) },
+		func() { k := rng.Intn(1000); w("sz%[1]d := mixm[-1:]\nsz%[1]d[0].name = \"z\"\nprint mixm sz%[1]d", k) },
+	)
 	// fresh aliases created by declaration in the middle
 	nd := 0
 	decl := []func(){
